@@ -4,7 +4,7 @@
    The square roots the code takes are parameters rt, si of the model with rt^2 = 1 - 2 px g2 and si^2 = ind
    among the hypotheses ("admissible").  All statements are for ALL admissible rational parameters, all tag-counter
    values and all expected inputs. *)
-From PV Require Import Model.Source Proofs.SourceP.
+From PV Require Import Model.Source Proofs.SourceP Proofs.SourceTableP.
 Open Scope Qc_scope.
 
 (* the hypotheses are satisfiable: brightness 4/5, g2 9/40, indistinguishability 81/100, transmittance 3/4 *)
@@ -140,3 +140,100 @@ Theorem C06_cache_history_independent : forall P h n f,
   tc_val (cache_request P (cache_run P None h) n f) = prob_table P n f.
 Proof. exact cache_history_independent. Qed.
 Print Assumptions C06_cache_history_independent.
+
+(* ------------------------------------------------------------------------------------------------------------------
+   The all-n link between the event table / event sampler and the distribution builder (Proofs/SourceTableP.v).
+   E l phi = sum over the entries (a, w) of l of w * phi a; list_sum input = number of requested photons. *)
+
+(* T1: photon-number marginal of the builder's distribution = mass of the table on the events giving N photons,
+   for every input (any photons per mode, any number of modes) *)
+Theorem C06_builder_number_law : forall P c input N, admissible P ->
+  mass (filter (fun e => (nphotons (fst e) =? N)%nat) (fst (raw_distribution P c input))) =
+  S3 (S (list_sum input)) (fun i j k => if (i + j + 2 * k =? N)%nat then T P (list_sum input) i j k else 0).
+Proof. exact builder_number_law. Qed.
+Print Assumptions C06_builder_number_law.
+
+(* ... for every test function of the photon number *)
+Theorem C06_builder_number_table : forall P c input, admissible P -> forall g : nat -> Qc,
+  E (fst (raw_distribution P c input)) (fun s => g (nphotons s)) =
+  S3 (S (list_sum input)) (fun i j k => T P (list_sum input) i j k * g (i + j + 2 * k)%nat).
+Proof. exact builder_number_table. Qed.
+Print Assumptions C06_builder_number_table.
+
+(* T2: physical performance returned by _compute_prob_table(sum input, f) = mass that generate_distribution(input)
+   puts on the states with at least f photons — for all inputs and filters (the driver's per-instance comparison) *)
+Theorem C06_table_matches_distribution : forall P c input f, admissible P ->
+  snd (fst (prob_table P (list_sum input) f)) = snd (Source.condition f (fst (generate_distribution P c input))).
+Proof. exact table_matches_distribution. Qed.
+Print Assumptions C06_table_matches_distribution.
+
+Example C06_table_matches_distribution_example :
+  snd (fst (prob_table example_source 3 2)) =
+    snd (Source.condition 2 (fst (generate_distribution example_source 0 [1; 2]%nat))) /\
+  snd (fst (prob_table example_source 3 2)) = qq 1199 1728 /\
+  snd (Source.condition 2 (fst (generate_distribution example_source 0 [1; 2]%nat))) = qq 1199 1728.
+Proof. exact table_matches_distribution_example. Qed.
+Print Assumptions C06_table_matches_distribution_example.
+
+(* T3: the distribution the event sampler draws from (one event_law draw per requested photon, merged into modes like
+   the input: sampler_distribution) and the builder's distribution give the same joint law to the vector
+   (photons, photons tagged 0) per mode — any test function g — and leave the tag counter in the same place *)
+Theorem C06_builder_matches_sampler : forall P c input, admissible P ->
+  (forall g : list (nat * nat) -> Qc,
+     E (fst (raw_distribution P c input)) (fun s => g (map lz s)) =
+     E (fst (sampler_distribution P c input)) (fun s => g (map lz s))) /\
+  snd (raw_distribution P c input) = snd (sampler_distribution P c input).
+Proof. exact builder_matches_sampler. Qed.
+Print Assumptions C06_builder_matches_sampler.
+
+(* ... the same after conditioning on "at least f photons": same kept mass, same conditioned law *)
+Theorem C06_conditioned_builder_matches_sampler : forall P c input f, admissible P ->
+  snd (Source.condition f (fst (generate_distribution P c input))) =
+  snd (Source.condition f (fst (sampler_distribution P c input))) /\
+  forall g : list (nat * nat) -> Qc,
+    E (fst (Source.condition f (fst (generate_distribution P c input)))) (fun s => g (map lz s)) =
+    E (fst (Source.condition f (fst (sampler_distribution P c input)))) (fun s => g (map lz s)).
+Proof. exact conditioned_builder_matches_sampler. Qed.
+Print Assumptions C06_conditioned_builder_matches_sampler.
+
+(* in every state of either distribution each non-zero tag occurs once: the vector of T3 determines a state up to an
+   injective renaming of the non-zero tags (and the order inside a mode) *)
+Theorem C06_all_tags_distinct : forall P c input,
+  Forall (fun e => NoDup (nz (concat (fst e)))) (fst (generate_distribution P c input)) /\
+  Forall (fun e => NoDup (nz (concat (fst e)))) (fst (sampler_distribution P c input)).
+Proof. exact all_tags_distinct. Qed.
+Print Assumptions C06_all_tags_distinct.
+
+Example C06_builder_matches_sampler_example :
+  length (fst (generate_distribution example_source 0 [1; 2]%nat)) = 125%nat /\
+  length (fst (sampler_distribution example_source 0 [1; 2]%nat)) = 216%nat /\
+  mass (filter (fun e => example_event (map lz (fst e))) (fst (generate_distribution example_source 0 [1; 2]%nat))) = qq 208791 4000000 /\
+  mass (filter (fun e => example_event (map lz (fst e))) (fst (sampler_distribution example_source 0 [1; 2]%nat))) = qq 208791 4000000 /\
+  T example_source 3 1 1 0 = qq 253 12000.
+Proof. exact builder_matches_sampler_example. Qed.
+Print Assumptions C06_builder_matches_sampler_example.
+
+(* the table is the count law of independent events: T_n(i,j,k) = probability that n = length cs independent draws of
+   the per-event law contain i "signal alone", j "g2 alone", k "signal + g2" events (cs: any tag counters) *)
+Theorem C06_table_is_event_count_law : forall P cs i j k,
+  mass (filter (fun e => ((count k_sig (fst e) =? i) && (count k_g2 (fst e) =? j) && (count k_duo (fst e) =? k))%nat)
+               (event_seq P cs)) = T P (length cs) i j k.
+Proof. exact table_is_event_count_law. Qed.
+Print Assumptions C06_table_is_event_count_law.
+
+(* the sampler's distribution is the image of the law of the event sequences under "forget the event structure and
+   merge the events of each mode" (imperfect source; a perfect one returns the expected input without drawing) ... *)
+Theorem C06_sampler_is_event_image : forall P c input, is_perfect P = false -> forall phi : state -> Qc,
+  E (fst (sampler_distribution P c input)) phi =
+  E (event_seq P (counters P c (list_sum input))) (fun evs => phi (regroup input (map forget0 evs))).
+Proof. exact sampler_is_event_image. Qed.
+Print Assumptions C06_sampler_is_event_image.
+
+(* ... and the table's filter (i + j + 2k >= f on the event counts) is the filter "at least f photons" on the image *)
+Theorem C06_filter_commutes_with_image : forall P c input f, is_perfect P = false -> forall phi : state -> Qc,
+  E (fst (sampler_distribution P c input)) (fun s => if (f <=? nphotons s)%nat then phi s else 0) =
+  E (event_seq P (counters P c (list_sum input)))
+    (fun evs => if passes f (count k_sig evs, count k_g2 evs, count k_duo evs)
+                then phi (regroup input (map forget0 evs)) else 0).
+Proof. exact filter_commutes_with_image. Qed.
+Print Assumptions C06_filter_commutes_with_image.
